@@ -306,12 +306,16 @@ func c15NewWorld(t *testing.T, maxIter uint64) *c15World {
 	}
 	w := &c15World{f: f, pay: &c15PayRec{}}
 	inc := c15Addr(101)
-	f.App.BankKeeper.AppendSendRestriction(func(ctx context.Context, from, to sdk.AccAddress, amt sdk.Coins) (sdk.AccAddress, error) {
-		if w.pay.armed && from.Equals(inc) {
-			w.pay.observe(sdk.UnwrapSDKContext(ctx), f, to, amt)
-		}
-		return to, nil
-	})
+	watch := func() {
+		f.App.BankKeeper.AppendSendRestriction(func(ctx context.Context, from, to sdk.AccAddress, amt sdk.Coins) (sdk.AccAddress, error) {
+			if w.pay.armed && from.Equals(inc) {
+				w.pay.observe(sdk.UnwrapSDKContext(ctx), f, to, amt)
+			}
+			return to, nil
+		})
+	}
+	watch()
+	f.Rebind = append(f.Rebind, watch) // C18 continue-after-import: the imported application's bank keeper is watched as well
 	return w
 }
 
@@ -629,6 +633,10 @@ func c15EpochName(e int) string {
 func c15Start(r *Run, maxIter uint64) *c15Trace {
 	t := &c15Trace{r: r, w: c15NewWorld(r.T, maxIter), sh: c15NewWorld(r.T, 1<<62), shadowOK: true,
 		epochBase: map[uint64]sdk.Coins{}, epochMax: map[uint64]sdk.Coins{}, epochExempt: map[uint64]bool{}, retargeted: map[uint64]bool{}, epochRecs: map[uint64]string{}}
+	// C18 continue-after-import forks the PRIMARY chain (the one the observation lines come from) and the
+	// shadow along with it; lastFix used to be the shadow, the fixture created last
+	t.w.f.Co = []*Fix{t.sh.f}
+	lastFix = t.w.f
 	line := fmt.Sprintf("reset %d %d %d %d", c15Time(t.w.f), maxIter, c15ND, c15NA)
 	t.lines = append(t.lines, line)
 	r.Emit(line, "ok | "+t.w.obs())
